@@ -352,8 +352,30 @@ def edit_notebook(rng, nb, nedits=None, structural=True, minor_change=False):
     return nb, kinds
 
 
+def inflate(rng, nb):
+    """make one text payload of one output longer than the lengths at which the similarity predicates stop comparing
+    (TEXT_MIMEDATA_MAX_COMPARE_LENGTH = 10000, STREAM_MAX_COMPARE_LENGTH = 1000); returns True if something was inflated"""
+    cands = []
+    for c in nb['cells']:
+        for o in c.get('outputs', []):
+            if o['output_type'] == 'stream':
+                cands.append((o, 'text', 1100))
+            elif o['output_type'] in ('display_data', 'execute_result'):
+                for k, v in o['data'].items():
+                    if isinstance(v, str) and (k.startswith('text/') or k.endswith('+xml')) and 'png' not in k:
+                        cands.append((o['data'], k, 10500))
+    if not cands:
+        return False
+    holder, key, n = rng.choice(cands)
+    filler = ''.join('<tr><td>row %d of a long table</td></tr>\n' % i for i in range(n // 36 + 2))
+    holder[key] = holder[key] + ('' if holder[key].endswith('\n') or not holder[key] else '\n') + filler
+    return True
+
+
 def pair(rng, minor=None):
     a = gen_notebook(rng, minor)
+    if rng.random() < 0.06:
+        inflate(rng, a)
     if rng.random() < 0.8:
         b, kinds = edit_notebook(rng, a)
     else:
@@ -363,6 +385,8 @@ def pair(rng, minor=None):
 
 def triple(rng, minor=None, minor_change=False):
     base = gen_notebook(rng, minor)
+    if rng.random() < 0.04:
+        inflate(rng, base)
     l, kl = edit_notebook(rng, base, minor_change=minor_change)
     r, kr = edit_notebook(rng, base, minor_change=minor_change)
     return base, l, r, kl + kr
@@ -406,6 +430,13 @@ def similar_cell(rng, c, used):
                 o['execution_count'] = d['execution_count']
     else:
         d['metadata'] = dict(d['metadata'], tags=['sim'])
+    if rng.random() < 0.35:
+        # both similar cells carry a metadata key the schema gives a type, with different values
+        key = rng.choice(['tags', 'name', 'collapsed', 'scrolled'] if d['cell_type'] == 'code' else ['tags', 'name'])
+        va, vb = {'tags': (['a', 'b'], ['b', 'c']), 'name': ('first', 'second'), 'collapsed': (True, False),
+                  'scrolled': (rng.choice([True, 'auto']), False)}[key]
+        c['metadata'] = dict(c['metadata'], **{key: va})
+        d['metadata'] = dict(d['metadata'], **{key: vb})
     return d
 
 
